@@ -50,8 +50,13 @@ class PatchList:
 
     def clear(self) -> None:
         """Removes collected sides but leaves patches' settings intact"""
-        for patch in self.patches.values():
+        for name in list(self.patches.keys()):
+            patch = self.patches[name]
             patch.sides.clear()
+
+            # patches that were not modified will be created anew if they are still in use
+            if patch.kind == "patch" and len(patch.settings) == 0:
+                del self.patches[name]
 
     @property
     def description(self) -> str:
